@@ -4,6 +4,7 @@ use explorer::{Args, Report};
 mod c02;
 mod c04;
 mod c07;
+mod c29;
 mod c40;
 mod ephemeral;
 
@@ -16,6 +17,7 @@ fn main() {
         "C07" => c07::run(Report::new(&args, "model_checking")),
         "C16" => ephemeral::run_c16(Report::new(&args, "model_checking")),
         "C17" => ephemeral::run_c17(Report::new(&args, "model_checking")),
+        "C29" => c29::run(Report::new(&args, "model_checking")),
         "C40" => c40::run(Report::new(&args, "model_checking")),
         other => {
             eprintln!("vh-node: unknown property {other}");
